@@ -8,10 +8,11 @@ from ..common.outcome import Outcome, require
 ID = "C11"
 FIVE = ["euclidean", "squared_euclidean", "average_euclidean", "log_euclidean", "log_squared_euclidean"]
 RULE = (
-    "tie-free training set + query pool by construction (integer coordinates / 8, all pairwise squared distances over the union distinct), >= 2 classes, a drawn permutation of the training order; "
+    "(a) tie-free training set + query pool by construction (integer coordinates / 8, all pairwise squared distances over the union distinct), >= 2 classes, a drawn permutation of the training order; "
     "the five mutually monotone identifiers euclidean, squared_euclidean, average_euclidean, log_euclidean, log_squared_euclidean. Premise verified per case on the five evaluated matrices "
     "(all off-diagonal values distinct, identical strict order), discarded otherwise. Oracle (metamorphic): permuted run: cost (exact), prototype status and assigned label of every sample and all "
     "predictions equal the base run; rescaled runs: prototype set, assigned labels, predictions equal across the five metrics and costs have the same rank order. "
+    "(b) pre-computed tie-free or NEARLY tied matrices (distinct weights within a relative 1e-7..1e-5): the permuted run presents the same matrix with I_train = permutation; same per-sample comparison. "
     "non-trivial: the permutation moves the sample at index 0 and a prototype, and some query's arg-min sample is not a prototype; distinct by case hash"
 )
 ASSUMPTIONS = ["premise (tie-free, same order type under the five transforms) is checked on the evaluated float matrices; cases failing it are discarded and counted"]
@@ -32,8 +33,46 @@ def _case(draw, nmax):
     return {"X": X, "nt": nt, "nq": nq, "Y": Y, "perm": perm}
 
 
+@st.composite
+def _pre_case(draw, nmax):
+    """pre-computed tie-free (also nearly tied) matrix; the permuted run presents the SAME matrix with I_train = permutation"""
+    nt = draw(st.integers(3, nmax))
+    nq = draw(st.integers(1, 4))
+    W, wm = draw(gen.weight_matrix(nt + nq, allow_zero=False, mode=draw(st.sampled_from(["tiefree", "neartie", "neartie"]))))
+    Y = draw(gen.labels(nt, 2, 3))
+    perm = list(draw(st.permutations(list(range(nt)))))
+    return {"mode": "pre", "W": W, "wmode": wm, "nt": nt, "nq": nq, "Y": Y, "perm": perm}
+
+
 def strategy(tier):
-    return _case(9 if tier == "quick" else 18)
+    n = 9 if tier == "quick" else 18
+    return st.one_of(_case(n), _case(n), _pre_case(n))
+
+
+def check_pre(case):
+    from ..common import supcase
+
+    nt, nq, W, Y, perm = case["nt"], case["nq"], case["W"], case["Y"], case["perm"]
+    m = nt + nq
+    vals = [W[i][j] for i in range(m) for j in range(i + 1, m)]
+    if len(set(vals)) != len(vals):
+        return Outcome.discard("premise:ties")
+    base = supcase.run({"model": "sup", "mode": "pre", "nt": nt, "nu": 0, "nq": nq, "Y": Y, "W": W}, predict=True)
+    pi = perm + list(range(nt, m))
+    Wp = [[W[pi[a]][pi[b]] for b in range(m)] for a in range(m)]
+    permuted = supcase.run({"model": "sup", "mode": "pre", "nt": nt, "nu": 0, "nq": nq, "Y": [Y[i] for i in perm], "W": Wp, "rows": pi}, predict=True)
+    if isinstance(base, str) or isinstance(permuted, str):
+        return Outcome.discard("premise:" + str(base if isinstance(base, str) else permuted))
+    s, sp = base.state, permuted.state
+    for j in range(nt):
+        i = perm[j]
+        for f in ("cost", "status", "predicted_label"):
+            require(sp[f][j] == s[f][i], "permutation_invariant:" + f, lambda: "pre-computed: sample %d (position %d after permuting): %s %r vs %r in the base run; perm=%r W=%r Y=%r" % (i, j, f, sp[f][j], s[f][i], perm, W, Y))
+    require(permuted.preds == base.preds, "permutation_invariant:predictions", lambda: "pre-computed: predictions %r (permuted) vs %r (base); perm=%r W=%r Y=%r" % (permuted.preds, base.preds, perm, W, Y))
+    protos = {i for i in range(nt) if s["status"][i] == 1}
+    moved0 = perm[0] != 0
+    moved_proto = any(perm[j] != j and perm[j] in protos for j in range(nt))
+    return Outcome.ok(nontrivial=moved0 and moved_proto, classes=["pre_" + case["wmode"]] + (["perm_moves_index0"] if moved0 else []))
 
 
 def _fit(name, X, Y, Q):
@@ -57,6 +96,8 @@ def _rank(vals):
 
 
 def check_case(case):
+    if case.get("mode") == "pre":
+        return check_pre(case)
     nt, nq = case["nt"], case["nq"]
     X, Y, perm = case["X"], case["Y"], case["perm"]
     tr, qs = X[:nt], X[nt:]
